@@ -265,7 +265,16 @@ func cmdRun(args []string) {
 	fs.IntVar(&cfg.CtxBound, "ctx", cfg.CtxBound, "context switch bound")
 	fs.IntVar(&cfg.EnvFires, "envfires", cfg.EnvFires, "environment firings bound")
 	models := fs.Bool("models", false, "collect a model per completed path")
+	pstr := fs.String("params", "", "harness parameters k=v,k=v")
 	fs.Parse(args)
+	params := map[string]int{}
+	for _, kv := range strings.Split(*pstr, ",") {
+		if i := strings.IndexByte(kv, '='); i > 0 {
+			var v int
+			fmt.Sscanf(kv[i+1:], "%d", &v)
+			params[kv[:i]] = v
+		}
+	}
 	t0 := time.Now()
 	e, err := loadEngine(*repo, []string{*pkg}, cfg)
 	if err != nil {
@@ -273,6 +282,7 @@ func cmdRun(args []string) {
 		os.Exit(2)
 	}
 	e.wantModels = *models
+	e.params = params
 	fmt.Fprintf(os.Stderr, "loaded in %v\n", time.Since(t0))
 	fn := e.findHarness(*harness)
 	if fn == nil {
